@@ -66,6 +66,8 @@ def tu(g, cases):
         o.append('  { static const char d[] = %s;' % L)
         o.append('    pr(%d, "cstring,ctobj", run(cstring_buffer(d), %s, %s)); pr(%d, "cstring,rtobj", runp(*q, cstring_buffer(d), %s, %s));' % (i, ws, nl, i, ws, nl))
         o.append('    pr(%d, "string,ctobj", run(string_buffer(std::string(d, %d)), %s, %s)); pr(%d, "string,rtobj", runp(*q, string_buffer(std::string(d, %d)), %s, %s));' % (i, n, ws, nl, i, n, ws, nl))
-        o.append('    pr(%d, "view,ctobj", run(string_view_buffer(std::string_view(d, %d)), %s, %s)); pr(%d, "view,rtobj", runp(*q, string_view_buffer(std::string_view(d, %d)), %s, %s)); }' % (i, n, ws, nl, i, n, ws, nl))
+        # the view is a window into a LARGER buffer: the text is followed by whitespace and a second copy of itself
+        o.append('    static const char e[] = %s;' % lit(list(c['bytes']) + [32, 10] + list(c['bytes']) + [32]))
+        o.append('    pr(%d, "view,ctobj", run(string_view_buffer(std::string_view(e, %d)), %s, %s)); pr(%d, "view,rtobj", runp(*q, string_view_buffer(std::string_view(e, %d)), %s, %s)); }' % (i, n, ws, nl, i, n, ws, nl))
     o.append('  return 0; }')
     return '\n'.join(o) + '\n'
